@@ -308,7 +308,7 @@ theorem specTable_entrySize (cfg : ElfCfg) (o : Option Nat) (sz : Nat) (r : Bool
     (specTable cfg o sz r).entrySize = relEntSize (relCfgOf cfg) r := rfl
 
 theorem getRelocationTables_spec (cfg : ElfCfg) (hcls : cfg.cls = 32 ∨ cfg.cls = 64) (ts : List (Val × Nat))
-    (loads : List LoadSeg) (d : DynRelocs) (hwf : WFDynRelocs d = true)
+    (loads : List LoadSeg) (d : DynRelocs)
     (h : ∀ name k, (name, k) ∈ relDynTags → k ≠ DT_NULL →
       tagsOf ts name = dynVals (dynRelEntries (relCfgOf cfg) d) k) :
     getRelocationTables (Spec.elfStructs cfg) ts (loads.map toLoad) = .ok (specDynTables cfg loads d) := by
@@ -334,13 +334,11 @@ theorem getRelocationTables_spec (cfg : ElfCfg) (hcls : cfg.cls = 32 ∨ cfg.cls
       List.filter_cons, List.filter_nil, Int.reduceBEq, Bool.false_eq_true, ↓reduceIte, List.map_cons, List.map_nil,
       Int.reduceToNat]
       at h1 h2 h3 h4 h5 h6 h7 h8 h9 h10 h11 h12
-    simp only [WFDynRelocs, Option.all_some, Option.all_none, Bool.and_eq_true, Bool.and_true, Bool.true_and,
-      decide_eq_true_eq] at hwf
     unfold getRelocationTables
     simp only [firstTag, tableOffset, h1, h2, h3, h4, h5, h6, h7, h8, h9, h10, h11, h12, dtRela_val, List.isEmpty_cons,
       List.isEmpty_nil, Bool.not_false, Bool.not_true, Bool.false_eq_true, ↓reduceIte, bind, Except.bind, pure,
       Except.pure, mkTable_spec cfg hcls, relrInit_spec', addressOffset_spec, hww, specDynTables,
-      List.append_nil, List.nil_append, List.cons_append, ne_eq, not_false_eq_true, hwf, not_true_eq_false,
+      List.append_nil, List.nil_append, List.cons_append, ne_eq, not_false_eq_true, not_true_eq_false,
       specTable_entrySize]
   all_goals rfl
 
